@@ -152,8 +152,9 @@ def ascending_guard(ctx, W, fn, push_bb, tag_term, list_term, key):
                         allowed.add((src, dst))
                     if rel[0] == "Le" and values.strip_payload(a) == tag_term and is_call(values.strip_payload(b)) and callee_name(values.strip_payload(b)[1]) == "last":
                         forbidden.append((src, dst))
-    ok = bool(allowed) and not reach_without(fn, push_bb, allowed)
-    ok2 = all(not (fn.reaches(dst, push_bb) or dst == push_bb) for (src, dst) in forbidden)
+    # variant-aware: after `check(..)?` (a helper inlined back) the Err value built on the forbidden edge cannot take the Continue edge
+    ok = bool(allowed) and not fn.feasible_reach(0, {push_bb}, removed_edges=allowed)
+    ok2 = all(not (dst == push_bb or fn.feasible_reach(dst, {push_bb})) for (src, dst) in forbidden)
     ctx.check("ascending-enforced", key, ok and ok2 and bool(forbidden),
               "the push is reachable only through `last < tag` or the empty-list edge; the `tag <= last` edge returns Err",
               "a tag can be appended without the strictly-ascending check (%s)" % ("no guard found" if not allowed else "guard can be bypassed" if not ok else "the `tag <= last` edge still reaches the push"),
@@ -360,10 +361,17 @@ def run(ctx):
                 continue
             kinds = []
             for st_ in bl.stmts:
-                if st_["k"] == "assign" and st_["dst"]["l"] == 0 and st_["rv"]["k"] == "agg" and st_["rv"].get("vname") == "Err":
+                # an Err built here (into the return place, or into the return place of a helper that was inlined)
+                if st_["k"] == "assign" and not st_["dst"].get("p") and st_["rv"]["k"] == "agg" and st_["rv"].get("vname") == "Err" and \
+                        "Result<" in fn.locals[st_["dst"]["l"]]["ty"] and "Error" in fn.locals[st_["dst"]["l"]]["ty"]:
                     kinds.append("err")
             if bl.term["k"] == "call" and callee_name(bl.term["fn"].get("path", "")) == "from_residual":
-                kinds.append("try")
+                src0 = values.strip_payload(e.call_args(bl.idx)[0])
+                while isinstance(src0, tuple) and src0 and src0[0] in ("vfield", "field"):
+                    src0 = src0[1]
+                if is_call(src0):
+                    kinds.append("try")
+                # otherwise the residual is a value assembled locally (an inlined helper's Err, counted where it is built)
             for kind in kinds:
                 nrej += 1
                 short = fn.path.split("::")[-1]
